@@ -14,6 +14,7 @@ import (
 	"github.com/massnetorg/mass-core/poc/pocutil"
 	"github.com/massnetorg/mass-core/pocec"
 	"massnet.org/mass/poc/engine/massdb"
+	"massnet.org/mass/verifhook"
 )
 
 type MapType uint8
@@ -76,6 +77,7 @@ func (mdb *MassDBV1) Plot() chan error {
 		return result
 	}
 
+	verifhook.Point("plot.starting", mdb)
 	mdb.stopPlotCh = make(chan struct{})
 	mdb.wg.Add(1)
 	go mdb.executePlot(result)
